@@ -428,6 +428,8 @@ func runC13(c *an.Ctx) {
 	s.ruleM5()
 	s.ruleM7()
 	s.ruleM8()
+	ruleM9(s)
+	ruleM10(s)
 	ruleM6(c)
 }
 
